@@ -199,12 +199,12 @@ func WithSerializers(msg any, serializer Serializer) Option {
 		// A typed nil pointer whose element is an interface (e.g. (*proto.Message)(nil))
 		// registers the serializer for all values that implement that interface.
 		if typ != nil && typ.Kind() == reflect.Pointer && typ.Elem().Kind() == reflect.Interface {
-			config.serializers[typ.Elem()] = serializer
+			config.setSerializer(typ.Elem(), serializer)
 			return
 		}
 
 		types.RegisterSerializerType(msg, serializer)
-		config.serializers[reflect.TypeOf(msg)] = serializer
+		config.setSerializer(reflect.TypeOf(msg), serializer)
 	})
 }
 
@@ -252,12 +252,12 @@ func WithSerializables(msgs ...any) Option {
 			// A typed nil pointer whose element is an interface (e.g. (*MyInterface)(nil))
 			// registers the serializer for all values that implement that interface.
 			if typ.Kind() == reflect.Pointer && typ.Elem().Kind() == reflect.Interface {
-				config.serializers[typ.Elem()] = cbor
+				config.setSerializer(typ.Elem(), cbor)
 				continue
 			}
 			// Concrete type — register in global registry and config
 			types.RegisterSerializerType(msg, cbor)
-			config.serializers[typ] = cbor
+			config.setSerializer(typ, cbor)
 		}
 	})
 }
@@ -304,12 +304,12 @@ func WithJSONSerializables(msgs ...any) Option {
 			// A typed nil pointer whose element is an interface (e.g. (*MyInterface)(nil))
 			// registers the serializer for all values that implement that interface.
 			if typ.Kind() == reflect.Pointer && typ.Elem().Kind() == reflect.Interface {
-				config.serializers[typ.Elem()] = json
+				config.setSerializer(typ.Elem(), json)
 				continue
 			}
 			// Concrete type — register in global registry and config
 			types.RegisterSerializerType(msg, json)
-			config.serializers[typ] = json
+			config.setSerializer(typ, json)
 		}
 	})
 }
